@@ -429,7 +429,7 @@ def run_check(pid: str, tier: str, seed: int, nshards: Optional[int] = None) -> 
             "rule": rule,
             "samples": col.samples[:12] or [{"note": "no non-trivial sample captured"}],
             "per_target": dict(col.per_target),
-            "class_distribution": dict(col.labels.most_common(80)),
+            "class_distribution": dict(col.labels.most_common(200)),
             "discarded": dict(col.discards),
             "exhaustive_subdomains": {k: v for k, v in col.exhaustive.items()},
             "exhaustive": bool(col.exhaustive) and all(col.exhaustive.values()) and getattr(mod, "ALL_EXHAUSTIVE", False),
